@@ -96,8 +96,11 @@ def threshold (det err : F64) : Int :=
 def triageSign (a b c : V3) : Int :=
   threshold ((a.cross b).dot c) maxDeterminantError
 
-/-- the float determinant and error bound computed by `stableSign` -/
-def stableDetErr (a b c : V3) : F64 × F64 :=
+/-- `minStableSignNorm2Product = 0x1p-1000` -/
+def minStableSignNorm2Product : F64 := ⟨0x0170000000000000⟩
+
+/-- the float determinant, the error bound and the product `|e1|²·|e2|²` computed by `stableSign` -/
+def stableParts (a b c : V3) : F64 × F64 × F64 :=
   let ab := b.sub a
   let ab2 := ab.norm2
   let bc := c.sub b
@@ -109,13 +112,19 @@ def stableDetErr (a b c : V3) : F64 × F64 :=
     else if F64.ge bc2 ca2 then (ab, ca, a)
     else (bc, ab, b)
   let det := -((e1.cross e2).dot op)
-  let maxErr := detErrorMultiplier * F64.sqrt (e1.norm2 * e2.norm2)
-  (det, maxErr)
+  let n2p := e1.norm2 * e2.norm2
+  let maxErr := detErrorMultiplier * F64.sqrt n2p
+  (det, maxErr, n2p)
 
-/-- `stableSign` -/
+/-- the float determinant and error bound computed by `stableSign` -/
+def stableDetErr (a b c : V3) : F64 × F64 :=
+  ((stableParts a b c).1, (stableParts a b c).2.1)
+
+/-- `stableSign`: `Indeterminate` when the product of squared norms (and with it the error bound)
+    is in the underflow range, else the thresholded determinant. -/
 def stableSign (a b c : V3) : Int :=
-  let (det, maxErr) := stableDetErr a b c
-  threshold det maxErr
+  if F64.lt (stableParts a b c).2.2 minStableSignNorm2Product then 0
+  else threshold (stableDetErr a b c).1 (stableDetErr a b c).2
 
 /-- `symbolicallyPerturbedSign(a, b, c, bCrossC)` : exactly the cascade of tests of the Go source.
     Never returns 0. -/
